@@ -93,6 +93,11 @@ def Srv.size : Srv → Nat
   | .done => 0
   | .aborted => 0
 
+/-- Direction of a message. -/
+inductive Dir where
+  | c2s | s2c
+  deriving DecidableEq, Repr
+
 /-- The transport-specific part of a connection: what the header / trailer / close calls do to the
 per-call state and what the client can read from it.  `Wrap.impl` follows pkg/wrap/stream.go,
 `GrpcRef.impl` is the reference semantics of a real gRPC connection. -/
@@ -101,6 +106,10 @@ structure Impl (σ : Type) where
   sendHeader : σ → MD → σ × Bool
   setTrailer : σ → MD → σ
   preSend : σ → σ                      -- what SendMsg does before the message is handed over
+  /-- one message with payload `m` from SendMsg to the receiver's own object; the Bool says that the
+  sender reuses one message object and overwrites it as soon as SendMsg has returned; the result is the
+  payload the receiver ends up with -/
+  xfer : σ → Dir → Nat → Bool → σ × Nat
   close : σ → Fin → σ                  -- the handler returned
   abort : σ → Abort → σ                -- the caller's context ended
   header : σ → Option MD               -- client Header(); none = it blocks
@@ -111,74 +120,76 @@ structure Impl (σ : Type) where
 property's hypothesis: the handler runs until it needs the client (send, recv without input, wait) or
 returns; a message passes exactly when one side sends and the other receives; anything else is
 `stuck`.  `cc` = the client half-closed. -/
-def go {σ : Type} (I : Impl σ) (fin : Fin) : σ → Bool → Srv → List COp → Transcript
+def go {σ : Type} (I : Impl σ) (fin : Fin) (reuse : Bool) : σ → Bool → Srv → List COp → Transcript
   -- handler ops that do not need the client
   | s, cc, .running (.setHeader md :: ss), cs =>
-      sevIf (I.setHeader s md).2 .hErr (go I fin (I.setHeader s md).1 cc (.running ss) cs)
+      sevIf (I.setHeader s md).2 .hErr (go I fin reuse (I.setHeader s md).1 cc (.running ss) cs)
   | s, cc, .running (.sendHeader md :: ss), cs =>
-      sevIf (I.sendHeader s md).2 .sErr (go I fin (I.sendHeader s md).1 cc (.running ss) cs)
+      sevIf (I.sendHeader s md).2 .sErr (go I fin reuse (I.sendHeader s md).1 cc (.running ss) cs)
   | s, cc, .running (.setTrailer md :: ss), cs =>
-      go I fin (I.setTrailer s md) cc (.running ss) cs
+      go I fin reuse (I.setTrailer s md) cc (.running ss) cs
   | s, cc, .running [], cs =>
-      go I fin (I.close s fin) cc .done cs
+      go I fin reuse (I.close s fin) cc .done cs
   -- handler in SendMsg: the header latch is flushed first, then it waits for the client's RecvMsg
   | s, cc, .running (.send m :: ss), .recv :: cs =>
-      cev (.msg m) (go I fin (I.preSend s) cc (.running ss) cs)
+      cev (.msg (I.xfer (I.preSend s) .s2c m reuse).2)
+        (go I fin reuse (I.xfer (I.preSend s) .s2c m reuse).1 cc (.running ss) cs)
   | s, cc, .running (.send m :: ss), .header :: cs =>
       match I.header (I.preSend s) with
-      | some md => cev (.hdr md) (go I fin (I.preSend s) cc (.running (.send m :: ss)) cs)
+      | some md => cev (.hdr md) (go I fin reuse (I.preSend s) cc (.running (.send m :: ss)) cs)
       | none => stuckT
   | s, false, .running (.send m :: ss), .closeSend :: cs =>
-      cev .closed (go I fin (I.preSend s) true (.running (.send m :: ss)) cs)
+      cev .closed (go I fin reuse (I.preSend s) true (.running (.send m :: ss)) cs)
   | _, _, .running (.send _ :: _), [] => leftT
   | _, _, .running (.send _ :: _), _ :: _ => stuckT
   -- handler in RecvMsg
   | s, true, .running (.recv :: ss), cs =>
-      sev .eof (go I fin s true (.running ss) cs)
+      sev .eof (go I fin reuse s true (.running ss) cs)
   | s, false, .running (.recv :: ss), .send m :: cs =>
-      cev .sent (sev (.got m) (go I fin s false (.running ss) cs))
+      cev .sent (sev (.got (I.xfer s .c2s m reuse).2)
+        (go I fin reuse (I.xfer s .c2s m reuse).1 false (.running ss) cs))
   | s, false, .running (.recv :: ss), .closeSend :: cs =>
-      cev .closed (go I fin s true (.running (.recv :: ss)) cs)
+      cev .closed (go I fin reuse s true (.running (.recv :: ss)) cs)
   | s, false, .running (.recv :: ss), .header :: cs =>
       match I.header s with
-      | some md => cev (.hdr md) (go I fin s false (.running (.recv :: ss)) cs)
+      | some md => cev (.hdr md) (go I fin reuse s false (.running (.recv :: ss)) cs)
       | none => stuckT
   | s, false, .running (.recv :: _), .abort a :: cs =>
-      cev (.did a) (sev .abort (go I fin (I.abort s a) false .aborted cs))
+      cev (.did a) (sev .abort (go I fin reuse (I.abort s a) false .aborted cs))
   | _, false, .running (.recv :: _), [] => leftT
   | _, false, .running (.recv :: _), _ :: _ => stuckT
   -- handler blocked on its own event source until the context ends
   | s, cc, .running (.wait :: ss), .header :: cs =>
       match I.header s with
-      | some md => cev (.hdr md) (go I fin s cc (.running (.wait :: ss)) cs)
+      | some md => cev (.hdr md) (go I fin reuse s cc (.running (.wait :: ss)) cs)
       | none => stuckT
   | s, false, .running (.wait :: ss), .closeSend :: cs =>
-      cev .closed (go I fin s true (.running (.wait :: ss)) cs)
+      cev .closed (go I fin reuse s true (.running (.wait :: ss)) cs)
   | s, cc, .running (.wait :: _), .abort a :: cs =>
-      cev (.did a) (sev .abort (go I fin (I.abort s a) cc .aborted cs))
+      cev (.did a) (sev .abort (go I fin reuse (I.abort s a) cc .aborted cs))
   | _, _, .running (.wait :: _), [] => leftT
   | _, _, .running (.wait :: _), _ :: _ => stuckT
   -- the handler has returned: the client runs alone
   | _, _, .done, [] => endT
   | s, cc, .done, .recv :: cs =>
       match I.terminal s with
-      | some e => cev e (go I fin s cc .done cs)
+      | some e => cev e (go I fin reuse s cc .done cs)
       | none => stuckT
   | s, cc, .done, .header :: cs =>
       match I.header s with
-      | some md => cev (.hdr md) (go I fin s cc .done cs)
+      | some md => cev (.hdr md) (go I fin reuse s cc .done cs)
       | none => stuckT
   | s, cc, .done, .trailer :: cs =>
-      cev (.trl (I.trailer s)) (go I fin s cc .done cs)
+      cev (.trl (I.trailer s)) (go I fin reuse s cc .done cs)
   | s, false, .done, .closeSend :: cs =>
-      cev .closed (go I fin s true .done cs)
+      cev .closed (go I fin reuse s true .done cs)
   | _, _, .done, _ :: _ => stuckT
   -- the call was aborted by the client: only the terminal RecvMsg is defined on both transports
   -- (grpc-go's Header() after a cancel depends on whether the HEADERS frame was already processed)
   | _, _, .aborted, [] => endT
   | s, cc, .aborted, .recv :: cs =>
       match I.terminal s with
-      | some e => cev e (go I fin s cc .aborted cs)
+      | some e => cev e (go I fin reuse s cc .aborted cs)
       | none => stuckT
   | _, _, .aborted, _ :: _ => stuckT
 termination_by _ _ srv cs => srv.size + cs.length
